@@ -97,3 +97,25 @@ def trivial_subclass(C):
         _SUB[C] = type(str("Sub" + C.__name__), (C,), {})
     return _SUB[C]
 
+
+def survivors(C, s):
+    """
+    objects whose sibling has been destroyed: (label, object) for the copy that outlives its original and the original that
+    outlives its copy (copy.copy and deepcopy).  What an object answers must not depend on the lifetime of another one.
+    """
+    import copy
+    out = []
+    for how, f in (("copy.copy", copy.copy), ("copy.deepcopy", copy.deepcopy)):
+        try:
+            o = C(s)
+            c = f(o)
+            del o                      # reference counting finalises it here and now
+            out.append(("%s outliving its original" % how, c))
+            o = C(s)
+            c = f(o)
+            del c
+            out.append(("original outliving its %s" % how, o))
+        except Exception:  # noqa  (copying not available: no statement promises it)
+            pass
+    return out
+
